@@ -1,6 +1,8 @@
 use verif_core::*;
 
+mod drive;
 mod enc;
+mod gen;
 mod props;
 mod visit;
 
